@@ -17,21 +17,22 @@ import (
 type V = map[string]interface{}
 
 type Tables struct {
-	mu    sync.Mutex
-	Bang  map[string]string
-	Ints  map[string]int64
-	Durs  map[string]int64
-	Times map[string]int64
-	QStr  map[string]bool
-	BadJs map[string]bool
-	Acts  map[string]map[string]string // action code -> {kind, tag}
-	Codes map[string]string            // condition code -> kind
+	mu      sync.Mutex
+	Bang    map[string]string
+	Ints    map[string]int64
+	Durs    map[string]int64
+	Times   map[string]int64
+	QStr    map[string]bool
+	BadJs   map[string]bool
+	OneShot map[string]bool              // schedule strings of one-shot jobs (start with + or !)
+	Acts    map[string]map[string]string // action code -> {kind, tag}
+	Codes   map[string]string            // condition code -> kind
 }
 
 func NewTables() *Tables {
 	t := &Tables{Bang: map[string]string{}, Ints: map[string]int64{}, Durs: map[string]int64{},
 		Times: map[string]int64{}, QStr: map[string]bool{}, BadJs: map[string]bool{},
-		Acts: map[string]map[string]string{}, Codes: map[string]string{}}
+		Acts: map[string]map[string]string{}, Codes: map[string]string{}, OneShot: map[string]bool{}}
 	// the trivial action scripts of the basic generators return their own number
 	for _, c := range []string{"1", "2", "3", "4", "5"} {
 		t.Acts[c] = map[string]string{"kind": "num", "tag": c}
@@ -56,6 +57,9 @@ func (t *Tables) noteString(s string) {
 	}
 	if strings.HasPrefix(s, "!") {
 		t.Bang[s] = s[1:]
+	}
+	if strings.HasPrefix(s, "!") || strings.HasPrefix(s, "+") {
+		t.OneShot[s] = true
 	}
 	if d, err := time.ParseDuration(s); err == nil && d%time.Second == 0 {
 		t.Durs[s] = int64(d / time.Second)
@@ -199,7 +203,7 @@ func (t *Tables) Header(extra map[string]interface{}) map[string]interface{} {
 	defer t.mu.Unlock()
 	h := map[string]interface{}{
 		"ev": "header", "bang": t.Bang, "ints": t.Ints, "durs": t.Durs, "times": t.Times,
-		"qstr": keys(t.QStr), "badjs": keys(t.BadJs), "acts": t.Acts, "codes": t.Codes,
+		"qstr": keys(t.QStr), "badjs": keys(t.BadJs), "acts": t.Acts, "codes": t.Codes, "oneshot": keys(t.OneShot),
 	}
 	for k, v := range extra {
 		h[k] = v
